@@ -624,7 +624,8 @@ func Describe(root *ggql.Root, sortMembers bool) (out string) {
 					args[k] = CanonLite(canonValue(av.Value))
 				}
 			}
-			if d, _ := root.GetType(du.Directive.Name()).(*ggql.Directive); d != nil {
+			// (the directive of the use itself: a type may carry the same name)
+			if d, _ := du.Directive.(*ggql.Directive); d != nil {
 				var b strings.Builder
 				_ = d.Write(&b, false)
 				// declared defaults, read from the printed definition's argument list
